@@ -2,47 +2,48 @@
   Helper lemmas for C02 (filter expressions vs RFC 9535). Statements used by JP/Props/C02.lean.
 -/
 import JP.Lemmas.Query
+import JP.Lemmas.FilterAux3
 namespace JP.Lemmas
 open JP JP.Query
 
 theorem compare_refines_rfc (rx : Rx) (op : CmpOp) (hop : isCmpOp op = true)
     (va vb : V) (a b : Option J) (ha : RepV va a) (hb : RepV vb b) :
-    compare rx va op vb = Rfc.cmp op a b := by
-  sorry
+    compare rx va op vb = Rfc.cmp op a b :=
+  compare_refines_rfc_aux rx op hop va vb a b ha hb
 
 theorem absent_equals_only_absent (rx : Rx) (va vb : V) (b : J) (ha : RepV va none) (hb : RepV vb (some b)) :
     compare rx va .eq vb = false ∧ compare rx vb .eq va = false ∧
-    (∀ vc, RepV vc none → compare rx va .eq vc = true) := by
-  sorry
+    (∀ vc, RepV vc none → compare rx va .eq vc = true) :=
+  absent_equals_only_absent_aux rx va vb b ha hb
 
 theorem ordering_only_numbers_or_strings (a b : J)
     (h : Rfc.cmpLt (some a) (some b) = true) :
-    (∃ x y, a = .str x ∧ b = .str y) ∨ ((Rfc.isNumber a).isSome ∧ (Rfc.isNumber b).isSome) := by
-  sorry
+    (∃ x y, a = .str x ∧ b = .str y) ∨ ((Rfc.isNumber a).isSome ∧ (Rfc.isNumber b).isSome) :=
+  ordering_only_numbers_or_strings_aux a b h
 
 theorem existence_not_truthiness (env : Env) (cur : J) (key : Option Part) (q : List Seg) :
     isTruthy (evalExpr env cur key (.self q)) = !(evalSegs env q [⟨[], env.rootTok, cur⟩]).isEmpty ∧
-    isTruthy (evalExpr env cur key (.root q false)) = !(evalSegs env q [⟨[], env.rootTok, env.root⟩]).isEmpty := by
-  sorry
+    isTruthy (evalExpr env cur key (.root q false)) = !(evalSegs env q [⟨[], env.rootTok, env.root⟩]).isEmpty :=
+  existence_not_truthiness_aux env cur key q
 
 theorem singular_at_most_one (env : Env) (q : List Seg) (n : Node) (hs : Rfc.singularSegs q = true) :
-    (evalSegs env q [n]).length ≤ 1 := by
-  sorry
+    (evalSegs env q [n]).length ≤ 1 :=
+  singular_le_one env q [n] hs (by simp)
 
 theorem logical_refines_rfc (env : Env) (renv : Rfc.REnv) (hag : EnvAgree env renv)
     (cur : J) (key : Option Part) (e : Expr) (hwt : Rfc.wtLogical e = true) :
-    isTruthy (evalExpr env cur key e) = Rfc.logical renv cur e := by
-  sorry
+    isTruthy (evalExpr env cur key e) = Rfc.logical renv cur e :=
+  logical_main hag e cur key hwt
 
 theorem comparable_refines_rfc (env : Env) (renv : Rfc.REnv) (hag : EnvAgree env renv)
     (cur : J) (key : Option Part) (e : Expr) (hwt : Rfc.wtComparable e = true) :
-    RepV (unwrapSingle (evalExpr env cur key e)) (Rfc.valueOf renv cur e) := by
-  sorry
+    RepV (unwrapSingle (evalExpr env cur key e)) (Rfc.valueOf renv cur e) :=
+  value_main hag e cur key hwt
 
 theorem segs_refines_rfc_wt (env : Env) (renv : Rfc.REnv) (hag : EnvAgree env renv)
     (segs : List Seg) (ns : List Node) (rs : List Rfc.RNode)
     (hwt : Rfc.wtSegs segs = true) (hr : RepresentsAll ns rs) :
-    RepresentsAll (evalSegs env segs ns) (Rfc.evalSegs renv segs rs) := by
-  sorry
+    RepresentsAll (evalSegs env segs ns) (Rfc.evalSegs renv segs rs) :=
+  segs_main hag segs hwt ns rs hr
 
 end JP.Lemmas
